@@ -42,6 +42,10 @@ SmokeTerms == {
   TStruct(9, <<TNil(1), TUnsafe(3, TInt(2, 2))>>, <<TRUE, FALSE>>),
   TPtrTo(10, TStruct(9, <<TInt(1, 1)>>, <<FALSE>>)), TPtrTo(10, TSlice(9, <<TStr(1, P(1))>>)), TNilPtr(1),
   TUnsafe(10, TSlice(9, <<TSafe(2, TStr(1, P(1)))>>)), TSafe(10, TSlice(9, <<TStr(1, P(1)), TInt(2, 2)>>)),
+  TRValue(5, TStr(1, P(1))), TRValue(5, TInt(1, 9)), TRValue(5, TNil(1)), TInvalidRV(5), TRValue(5, TSafe(2, TStr(1, P(1)))), TRValue(5, TUnsafe(2, TInt(1, 3))),
+  TRValue(5, TRStr(1, StartM \o <<A>> \o EndM)), TRValue(5, Obj(1, {"SF"})), TRValue(5, Obj(1, {"ST", "SV"})), TRValue(5, Obj(1, {"REG"})), TRValue(5, Obj(1, {"ER", "NILP"})),
+  TRValue(5, TStruct(9, <<TInt(1, 1), TSafe(3, TStr(2, P(2)))>>, <<FALSE, TRUE>>)), TRValue(5, TPtrTo(10, TStruct(9, <<TInt(1, 1)>>, <<FALSE>>))),
+  TUnsafe(6, TRValue(5, TStr(1, P(1)))), TSafe(6, TRValue(5, TInt(1, 4))),
   Obj(1, {"SF"}), Obj(1, {"SM"}), Obj(1, {"SV"}), Obj(1, {"ER"}), Obj(1, {"FM"}), Obj(1, {"GS"}), Obj(1, {"ST"}), Obj(1, {"REG"}), Obj(1, {}),
   Obj(1, {"SF", "SM", "ER", "FM", "ST"}), Obj(1, {"SM", "ER", "FM"}), Obj(1, {"ER", "ST", "GS"}), Obj(1, {"ST", "SV"}),
   Obj(1, {"ST", "NILP"}), Obj(1, {"SF", "NILP"}), Obj(1, {"ER", "REG"}),
@@ -84,8 +88,11 @@ Leaf(kind, i) == CASE kind = "ustr" -> UStr(i) [] kind = "uint" -> UInt(i) [] ki
                    [] kind = "st" -> StObj(i) [] kind = "er" -> ErObj(i) [] kind = "nil" -> TNil(i)
                    [] kind = "safestr" -> SafeStr(i) [] kind = "safeint" -> SafeInt(i)
                    [] kind = "bool" -> TBool(i) [] kind = "float" -> TFloat(i) [] kind = "svsf" -> SVSF(i)
-LeafKinds  == {"ustr", "uint", "sv", "svstr", "reg", "sm", "st", "er", "nil", "safestr", "safeint", "bool", "float", "svsf"}
-QLeafKinds == {"ustr", "uint", "sv", "svstr", "reg", "nil", "safestr", "st", "svsf"}
+                   [] kind = "rv" -> TRValue(i, UStr(i + 1)) [] kind = "rvsv" -> TRValue(i, SVStr(i + 1))
+                   [] kind = "rvsafe" -> TRValue(i, SafeStr(i + 1)) [] kind = "rvslice" -> TRValue(i, TSlice(i + 1, <<UStr(i + 2), SVObj(i + 3)>>))
+LeafKinds  == {"ustr", "uint", "sv", "svstr", "reg", "sm", "st", "er", "nil", "safestr", "safeint", "bool", "float", "svsf",
+               "rv", "rvsv", "rvsafe", "rvslice"}
+QLeafKinds == {"ustr", "uint", "sv", "svstr", "reg", "nil", "safestr", "st", "svsf", "rvsv"}
 
 \* container shapes around two leaves a (ids 10..) and b (ids 20..); container ids 30..
 Shape(sh, a, b) ==
@@ -109,11 +116,14 @@ ClsFormats  == {Fv, FplusV, FsharpV, F6v, Fm6v, Fs, Fd, Fx, Fq, FT}
 QClsFormats == {Fv, FplusV, FsharpV, F6v, Fd}
 
 \* ---- slice "cls" (C05, C02, C16): classification of leaves at top level and inside containers
-ClsRoots == [sh : IF Slice = "cls" THEN Shapes ELSE QShapes, ka : IF Slice = "cls" THEN LeafKinds ELSE QLeafKinds]
+\* (a reflect.Value is modelled as an operand only, not as an element of a container: there fmt prints the struct)
+IsRV(kind) == kind \in {"rv", "rvsv", "rvsafe", "rvslice"}
+ClsRoots == {r \in [sh : IF Slice = "cls" THEN Shapes ELSE QShapes, ka : IF Slice = "cls" THEN LeafKinds ELSE QLeafKinds] :
+               IsRV(r.ka) => r.sh \in {"top", "two"}}
 ClsExpand(r) ==
   LET kinds == IF Slice = "cls" THEN LeafKinds ELSE QLeafKinds
       fmts  == IF Slice = "cls" THEN ClsFormats ELSE QClsFormats
-      kbs   == IF r.sh \in {"top", "mapkey"} THEN {"nil"} ELSE kinds
+      kbs   == IF r.sh \in {"top", "mapkey"} THEN {"nil"} ELSE {k \in kinds : IsRV(k) => r.sh = "two"}
   IN UNION {
        LET ts == Shape(r.sh, Leaf(r.ka, 10), Leaf(kb, 20)) IN
          {Case("Sprintf", IF Len(ts) = 2 THEN TwoFmt(f) ELSE Around(f), ts, <<>>) : f \in fmts}
@@ -258,6 +268,28 @@ HookExpand(r) == LET ts == HookPos(r[2], HookErr(r[1], 10)) IN
                  {Case("Sprintf", Around(f), ts, <<>>) : f \in {Fv, Fs, Fd, Fq, Fx, FplusV, FsharpV, F6v}}
                  \cup {Case("Sprint", <<>>, ts, <<>>), Case("Errorf", Around(Fw), ts, <<>>), Case("Errorf", Fw \o Fw, ts \o ts, <<>>)}
 
+\* ---- slice "dir" (C01 C02 C04 C05): every form of directive around operands of every class
+DStar   == <<37, 42, 100>>            \* %*d
+DmStar  == <<37, 45, 42, 118>>        \* %-*v
+DpStar  == <<37, 46, 42, 118>>        \* %.*v
+DIdx21  == <<37, 91, 50, 93, 118, 32, 37, 91, 49, 93, 118>>   \* %[2]v %[1]v
+DIdx3   == <<37, 91, 51, 93, 118>>    \* %[3]v
+DIdxW   == <<37, 91, 50, 93, 42, 91, 49, 93, 118>>            \* %[2]*[1]v
+DTwo    == Fv \o <<124>> \o Fv        \* %v|%v
+DThree  == Fv \o <<124>> \o Fv \o <<124>> \o Fd
+DNoVerb == Fv \o <<37>>               \* %v%
+DBang   == <<37, 33>> \o Fv           \* %!%v
+DPct    == <<37, 37>> \o Fv \o <<37, 37>>
+DirFormats == {DStar, DmStar, DpStar, DIdx21, DIdx3, DIdxW, DTwo, DThree, DNoVerb, DBang, DPct, Fv, <<A>>, FZ \o Fv}
+DirOperands == {UStr(10), UInt(10), SafeStr(10), SVObj(10), TNil(10), StObj(10), TInt(10, 6), TInt(10, -4), SafeInt(10), TRValue(10, UInt(11)), TUnsafe(10, UInt(11))}
+DirOperands2 == {UStr(20), TInt(20, 5), SafeStr(20), TNil(20), RegObj(20)}
+DirRoots == DirFormats
+\* (objects are named int types in the harness, so '*' would read their handle as a width: kept out of star formats)
+DirOK(f, t) == ~(Contains(f, Star) /\ t.k = "obj")
+DirExpand(f) == {Case("Sprintf", f, <<>>, <<>>)} \cup {Case("Sprintf", f, <<a>>, <<>>) : a \in {x \in DirOperands : DirOK(f, x)}}
+                \cup {Case("Sprintf", f, <<a, b>>, <<>>) : a \in {x \in DirOperands : DirOK(f, x)}, b \in {x \in DirOperands2 : DirOK(f, x)}}
+                \cup {Case("Sprintf", f, <<a, b, UStr(30)>>, <<>>) : a \in {UInt(10), TInt(10, 6), SafeStr(10)}, b \in {x \in DirOperands2 : DirOK(f, x)}}
+
 Roots     == CASE Slice = "smoke" -> SmokeRoots
                [] Slice \in {"cls", "qcls"} -> ClsRoots
                [] Slice = "wrap" -> WrapRoots
@@ -265,6 +297,7 @@ Roots     == CASE Slice = "smoke" -> SmokeRoots
                [] Slice = "panic" -> PanicRoots
                [] Slice \in {"errorf", "qerrorf"} -> ErrRoots
                [] Slice = "hook" -> HookRoots
+               [] Slice = "dir" -> DirRoots
 Expand(r) == CASE Slice = "smoke" -> SmokeExpand(r)
                [] Slice \in {"cls", "qcls"} -> ClsExpand(r)
                [] Slice = "wrap" -> WrapExpand(r)
@@ -272,6 +305,7 @@ Expand(r) == CASE Slice = "smoke" -> SmokeExpand(r)
                [] Slice = "panic" -> PanicExpand(r)
                [] Slice \in {"errorf", "qerrorf"} -> ErrExpand(r)
                [] Slice = "hook" -> HookExpand(r)
+               [] Slice = "dir" -> DirExpand(r)
 
 ---------------------------------------------------------------------------
 VARIABLE root
